@@ -250,11 +250,12 @@ func vpC08Parse(kind int, stream []byte, bufSize int, plan []int, maxBody int, s
 // independent framers (RFC 9112) for responses and trailer sections
 
 type vpC08Ref struct {
-	decided bool // an unambiguous end exists
-	end     int
-	headEnd int // end of the (first) head, valid when headOK
-	headOK  bool
-	why     string
+	expect100 bool // request carries Expect: 100-continue (ReadLimitBody documents that it stops after the head)
+	decided   bool // an unambiguous end exists
+	end       int
+	headEnd   int // end of the (first) head, valid when headOK
+	headOK    bool
+	why       string
 }
 
 func vpC08IsDigits(s string) bool {
@@ -446,6 +447,7 @@ func vpC08RefFor(kind int, stream []byte, skipBody bool) vpC08Ref {
 			return r
 		}
 		r.headEnd, r.headOK = m.HeadEnd, true
+		r.expect100 = m.Expect100
 		if kind == vpC08ReqHead {
 			r.decided, r.end = true, m.HeadEnd
 			return r
@@ -643,7 +645,16 @@ func vpC08Check(c *vpC08Case) (complaint, class string, nontrivial bool) {
 				ref.end, o.consumed, vpQuote(c.stream[ref.end:o.consumed], 120), o.msg), class, true
 		}
 		if o.consumed < ref.end {
-			class += "/short"
+			// under-read: not what C08 is about, but recorded
+			switch {
+			case ref.expect100 && o.consumed == ref.headEnd:
+				class += "/stopped-after-head(expect-100)"
+			case o.multipart:
+				class += "/short(multipart)"
+			default:
+				class += "/short-unexplained"
+				vpNote("C08 under-read outside the documented cases: %s consumed=%d rfc-end=%d", c.String(), o.consumed, ref.end)
+			}
 		}
 	} else {
 		class += "/ref-undecided"
@@ -685,13 +696,24 @@ var vpC08Interesting = []string{"\r", "\n", "\r\n", "\r\n\r\n", "\n\n", " ", "\t
 // vpC08Mutate applies 1..4 byte-level mutations.
 func vpC08Mutate(t *rapid.T, b []byte) []byte {
 	b = append([]byte(nil), b...)
-	n := rapid.IntRange(1, 4).Draw(t, "nmut")
+	n := rapid.SampledFrom([]int{1, 1, 1, 1, 2, 2, 3, 4}).Draw(t, "nmut")
 	for i := 0; i < n; i++ {
 		if len(b) == 0 {
 			b = append(b, rapid.SampledFrom(vpC08Interesting).Draw(t, "ins0")...)
 			continue
 		}
+		// rapid biases integers towards small values: spread the positions over the start, the end and
+		// the line ends of the message
 		pos := rapid.IntRange(0, len(b)-1).Draw(t, "mpos")
+		switch rapid.IntRange(0, 2).Draw(t, "mposkind") {
+		case 1:
+			pos = len(b) - 1 - pos
+		case 2:
+			if hot := vpHotOffsets(b, 64); len(hot) > 0 {
+				h := hot[len(hot)-1-rapid.IntRange(0, len(hot)-1).Draw(t, "mhot")] + rapid.IntRange(-3, 12).Draw(t, "mdelta")
+				pos = max(0, min(len(b)-1, h))
+			}
+		}
 		switch rapid.IntRange(0, 8).Draw(t, "mop") {
 		case 0: // flip a bit
 			b[pos] ^= 1 << rapid.IntRange(0, 7).Draw(t, "bit")
@@ -739,7 +761,7 @@ func vpC08GenSoup(t *rapid.T) []byte {
 }
 
 // vpC08GenResponse: a small response grammar (valid shapes + adversarial operators).
-func vpC08GenResponse(t *rapid.T) (raw []byte, labels []string) {
+func vpC08GenResponse(t *rapid.T) (raw []byte, labels []string, bodyLen int) {
 	var b bytes.Buffer
 	ni := rapid.SampledFrom([]int{0, 0, 0, 0, 1, 1, 2}).Draw(t, "ninterim")
 	for i := 0; i < ni; i++ {
@@ -759,7 +781,7 @@ func vpC08GenResponse(t *rapid.T) (raw []byte, labels []string) {
 	}
 	framing := rapid.SampledFrom([]string{"cl", "cl", "chunked", "chunked", "identity", "cl0"}).Draw(t, "framing")
 	op := ""
-	if rapid.IntRange(0, 9).Draw(t, "adv") < 4 {
+	if rapid.IntRange(0, 9).Draw(t, "adv") >= 7 {
 		op = rapid.SampledFrom([]string{"cl-dup", "cl-te", "te-cl", "cl-plus", "cl-huge", "cl-short", "cl-long", "cl-ws", "te-case", "te-gzip-chunked", "te-two", "te-on-10",
 			"bare-lf-line", "bare-lf-all", "bare-lf-terminator", "fold", "ws-colon", "no-colon", "empty-name", "nul-value", "leading-empty-line", "status-2digit",
 			"status-4digit", "status-alpha", "no-space", "two-spaces", "chunk", "long-header", "trailer-decl"}).Draw(t, "op")
@@ -882,7 +904,7 @@ func vpC08GenResponse(t *rapid.T) (raw []byte, labels []string) {
 	}
 	b.WriteString(terminator)
 	b.Write(wire)
-	return b.Bytes(), labels
+	return b.Bytes(), labels, len(body)
 }
 
 func vpC08GenTrailer(t *rapid.T) ([]byte, []string) {
@@ -937,11 +959,11 @@ func vpC08GenTail(t *rapid.T, isResp bool) []byte {
 
 func vpC08GenBufSize(t *rapid.T) int {
 	switch rapid.IntRange(0, 9).Draw(t, "bufkind") {
-	case 0:
+	case 9:
 		return rapid.SampledFrom([]int{16, 17, 31, 32, 64}).Draw(t, "bufsmall")
-	case 1, 2:
-		return rapid.IntRange(16, 4096).Draw(t, "bufrnd")
-	case 3:
+	case 7, 8:
+		return 4096 + 16 - rapid.IntRange(16, 4096).Draw(t, "bufrnd")
+	case 6:
 		return rapid.SampledFrom([]int{128, 256, 512, 1024}).Draw(t, "bufmid")
 	default:
 		return 4096
@@ -949,16 +971,16 @@ func vpC08GenBufSize(t *rapid.T) int {
 }
 
 func vpC08GenMaxBody(t *rapid.T, bodyLen int) int {
-	switch rapid.IntRange(0, 7).Draw(t, "maxkind") {
-	case 0:
+	switch rapid.IntRange(0, 11).Draw(t, "maxkind") {
+	case 11:
 		return 1
-	case 1:
+	case 10:
 		return max(1, bodyLen-1)
-	case 2:
+	case 9:
 		return max(1, bodyLen)
-	case 3:
+	case 8:
 		return bodyLen + 1
-	case 4:
+	case 7:
 		return rapid.IntRange(1, 5000).Draw(t, "maxrnd")
 	default:
 		return 64 * 1024
@@ -974,29 +996,28 @@ func vpC08GenCase(t *rapid.T, kind int) (*vpC08Case, string) {
 	isResp := kind == vpC08RespFull || kind == vpC08RespHead || kind == vpC08RespTrailer
 	bodyLen := 0
 	switch src := rapid.IntRange(0, 19).Draw(t, "origin"); {
-	case src == 0:
+	case src == 19: // (rapid favours small values; the rare origins sit at the top of the range)
 		origin = "raw"
 		msg = rapid.SliceOfN(rapid.Byte(), 0, 200).Draw(t, "raw")
-	case src <= 2:
+	case src == 18:
 		origin = "soup"
 		msg = vpC08GenSoup(t)
 	default:
 		origin = "grammar"
 		switch kind {
 		case vpC08ReqFull, vpC08ReqHead:
-			r := vpGenRequest(t, 0, vpGenOpts{Adversarial: 45, AllowClose: true, AllowExpect: true, AllowMultipart: true, MaxBody: 300, LongHeader: rapid.SampledFrom([]int{40, 300, 1500}).Draw(t, "longhdr")})
+			r := vpGenRequest(t, 0, vpGenOpts{Adversarial: 20, AllowClose: true, AllowExpect: true, AllowMultipart: true, MaxBody: 300, LongHeader: rapid.SampledFrom([]int{40, 300, 1500}).Draw(t, "longhdr")})
 			msg, labels, bodyLen = r.Raw, r.Labels, len(r.Body)
 			if kind == vpC08ReqFull && rapid.IntRange(0, 11).Draw(t, "mpbody") == 0 {
 				msg = vpC08GenMultipartReq(t)
 				labels = append(labels, "multipart-form")
 			}
 		case vpC08RespFull, vpC08RespHead:
-			msg, labels = vpC08GenResponse(t)
-			bodyLen = 40
+			msg, labels, bodyLen = vpC08GenResponse(t)
 		default:
 			msg, labels = vpC08GenTrailer(t)
 		}
-		if rapid.IntRange(0, 9).Draw(t, "mutate") < 4 {
+		if rapid.IntRange(0, 9).Draw(t, "mutate") >= 7 {
 			msg = vpC08Mutate(t, msg)
 			origin = "grammar+mutated"
 		} else if len(labels) > 0 {
